@@ -540,7 +540,7 @@ def fam_free (rng, fam = None, seg_hi = 1 / 21., seg_lo = 1 / 100., nmax = 60, e
 
 def fam_ground (rng, fam = None, seg_hi = 1 / 21., seg_lo = 1 / 100., media = 'ideal', shift = True):
     """ structure family over a ground plane (z = 0) """
-    fams = ['mono', 'slope', 'invL', 'Tgnd', 'two', 'hdip', 'bent', 'gp']
+    fams = ['mono', 'slope', 'invL', 'Tgnd', 'two', 'hdip', 'bent', 'gp', 'lean']
     fam  = fam or str (rng.choice (fams))
     f, lam, segl, rad = pick_scale (rng, seg_lo, seg_hi)
     R = rot_z (rng.uniform (0, 2 * np.pi))
@@ -567,6 +567,16 @@ def fam_ground (rng, fam = None, seg_hi = 1 / 21., seg_lo = 1 / 100., media = 'i
         n  = int (rng.integers (3, 16))
         el = np.radians (rng.uniform (25, 85))
         add (n, [0, 0, 0], [n * segl * np.cos (el), 0, n * segl * np.sin (el)], rev = rev)
+        feeds.append (dict (at = P ([0, 0, 0]).tolist (), dir = [0, 0, 1.]))
+    elif fam == 'lean':
+        # grounded wire a little off the vertical (0.05 .. 12 degrees), alone or with a top wire
+        n1  = int (rng.integers (3, 14))
+        off = np.radians (float (np.exp (rng.uniform (np.log (0.05), np.log (12.)))))
+        top = np.array ([n1 * segl * np.sin (off), 0, n1 * segl * np.cos (off)])
+        add (n1, [0, 0, 0], top, rev = rev)
+        if rng.random () < 0.4:
+            n2 = int (rng.integers (3, 10))
+            add (n2, top, top + np.array ([0, n2 * segl, 0]), rev = bool (rng.random () < 0.5))
         feeds.append (dict (at = P ([0, 0, 0]).tolist (), dir = [0, 0, 1.]))
     elif fam == 'invL':
         n1, n2 = int (rng.integers (3, 10)), int (rng.integers (3, 12))
